@@ -54,6 +54,7 @@ def part_enum(ck, exe, model):
     if rc != 0:
         ck.violation("crash:enum", "harness crashed in the enumeration part (rc=%d)" % rc, {"kind": "crash", "stderr": herr[-500:]})
     nline = 0
+    rlines = {}
     for (cid, k, bn, al) in keys:
         p = cases[k][0]
         hl = [l for l in HB.get(cid, []) if l.startswith("E ")]
@@ -74,15 +75,25 @@ def part_enum(ck, exe, model):
             ck.violation("enum-count", "enumeration of %s produced %d harness / %d model lines, expected %d" % (cid, len(hl), len(ml), len(al) ** (p.m + p.n)),
                          {"lp": p.text(cid), "kind": "correspondence"}, no_input=True)
             continue
-        for a, b in zip(hl, ml):
+        if bn == "R":
+            rlines[k] = [x.split(" | ")[0] for x in ml]
+        for li, (a, b) in enumerate(zip(hl, ml)):
             nline += 1
             left, right = b.split(" | ")
             ex = dict(w.split("=", 1) for w in right.split())
             t = a.split()
             rows, cols = t[1], t[2]
             ha = dict(w.split("=", 1) for w in t[3:])
+            if a != left and a.rsplit(" v=", 1)[0] == left.rsplit(" v=", 1)[0] and ha["v"] == ex["vc"]:
+                # only the isBasisValid answer differs from the model of the code as it was written (dim()), and it is the documented one
+                ck.count("enum:isBasisValid-answers-as-documented(fixed variant)")
+                left = a
+            if a != left and bn == "D" and k in rlines and a.rsplit(" v=", 1)[0] == rlines[k][li].rsplit(" v=", 1)[0]:
+                # setBasis loaded the LP and let the solver validate the arrays (fixed variant): same answers as in the loaded branch
+                ck.count("enum:outside-setBasis-validated(fixed variant)")
+                left = a
+                ha["h"] = "0" if ex["vc"] != "1" else ha["h"]      # nothing invalid is reported in this variant
             if a != left:
-                # is it only the isBasisValid answer?  (then the faithful model of dim() is wrong, not the basis logic)
                 ck.violation("setbasis-correspondence:%s" % bn,
                              "setBasis/getBasis/status/index queries differ from the model in branch %s for rows=%s cols=%s: implementation '%s' model '%s'" % (bn, rows, cols, a, left),
                              {"lp": p.text(cid), "lp_format": p.lp_format(), "branch": bn, "rows": rows, "cols": cols, "observed": a, "model": left,
